@@ -26,6 +26,7 @@ type AEntry struct {
 	Ty    string            `json:"ty"`
 	Fmt   string            `json:"fmt"`
 	Fld   map[string]string `json:"fld"`
+	Len   int               `json:"len"`
 }
 
 type AMatcher struct {
@@ -63,32 +64,14 @@ type AStage struct {
 	Lbl    string   `json:"lbl"`
 }
 
-// AMetric is the metric part of a query (C08); nil for log queries.
-type AMetric struct {
-	Fn     string   `json:"fn"`    // rate, count_over_time, bytes_rate, bytes_over_time, sum_over_time, ...
-	Range  int      `json:"range"` // in ticks
-	Step   int      `json:"step"`  // in ticks
-	Agg    string   `json:"agg"`   // "" or sum|min|max|avg|count
-	Grp    string   `json:"grp"`   // "" | by | without
-	GrpPos string   `json:"gpos"`  // prefix | suffix
-	GrpL   []string `json:"glbls"`
-	Cmp    string   `json:"cmp"` // "" or > >= < <= == !=
-	CmpK   int      `json:"cmpk"`
-	CmpDen int      `json:"cmpden"`
-	TopFn  string   `json:"topfn"` // "" | topk | bottomk
-	TopK   int      `json:"topk"`
-	UGrp   string   `json:"ugrp"` // by/without of the unwrap range function itself
-	UGrpL  []string `json:"uglbls"`
-}
-
 type AQuery struct {
-	M    []AMatcher `json:"m"`
-	P    []AStage   `json:"p"`
-	From int        `json:"from"`
-	To   int        `json:"to"`
-	Lim  int        `json:"lim"`
-	Fwd  bool       `json:"fwd"`
-	Mq   *AMetric   `json:"mq,omitempty"`
+	M     []AMatcher      `json:"m"`
+	P     []AStage        `json:"p"`
+	From  int             `json:"from"`
+	To    int             `json:"to"`
+	Lim   int             `json:"lim"`
+	Fwd   bool            `json:"fwd"`
+	MqRaw json.RawMessage `json:"mq,omitempty"`
 }
 
 type ARes struct {
@@ -96,35 +79,17 @@ type ARes struct {
 	Lbls map[string]string `json:"lbls"`
 }
 
-// APoint / ASeries: expected metric output (C08). Value = Num / Den (exact rational over integers; unwrap values are
-// scaled by the concretiser with a dyadic factor).
-type APoint struct {
-	T   int `json:"t"`
-	Num int `json:"num"`
-	Den int `json:"den"`
-	Sc  int `json:"sc"` // 1: value carries the unwrap scale, 0: it is a count
-	Alt []struct {
-		Num int `json:"num"`
-		Den int `json:"den"`
-		Sc  int `json:"sc"`
-	} `json:"alt,omitempty"`
-}
-type ASeries struct {
-	Lbls map[string]string `json:"lbls"`
-	Pts  []APoint          `json:"pts"`
-}
-
 type ACase struct {
-	Frag  string          `json:"frag"`
-	Idx   int             `json:"idx"`
-	Q     AQuery          `json:"q"`
-	DB    []AEntry        `json:"db"`
-	Exp   []ARes          `json:"exp"`
-	Dev   bool            `json:"dev"`
-	PlErr bool            `json:"plerr"`
-	Pl    json.RawMessage `json:"pl"`
-	MExp  []ASeries       `json:"mexp,omitempty"`
-	Why   string          `json:"why,omitempty"`
+	Frag    string          `json:"frag"`
+	Idx     int             `json:"idx"`
+	Q       AQuery          `json:"q"`
+	DB      []AEntry        `json:"db"`
+	Exp     []ARes          `json:"exp"`
+	Dev     bool            `json:"dev"`
+	PlErr   bool            `json:"plerr"`
+	Pl      json.RawMessage `json:"pl"`
+	MExpRaw json.RawMessage `json:"mexp,omitempty"`
+	MPlRaw  json.RawMessage `json:"mpl,omitempty"`
 }
 
 // ----------------------------------------------- pools ------------------------------------------------------
